@@ -174,7 +174,7 @@ def generator_rules(ctx, fv, tab):
             continue
         if len(incs) != 1 or any(fv.term(i[1]["r"]) != L(1) or i[1].get("op") != "+=" for i in incs):
             bad_pos = (incs[0][1] if incs else loop)
-        took_emit = (emit_guard, True) in conds
+        took_emit = (emit_guard, True) in conds or (mk_bin("!=", SF("len"), SF("ksize")), False) in conds
         if ex[0] == "ret":
             n_emit += 1
             rt = fv.term(ex[1].get("e"))
@@ -250,7 +250,9 @@ def symbolic_rules(ctx, fv, iter_root, loop):
         if clean:
             continue
         # the property quantifies over k >= 1: a path that needs ksize == 0 is outside it
-        if any(pol and t in (mk_bin("==", SF("ksize"), L(0)),) for t, pol, _ in sp.conds):
+        if any((pol and t == mk_bin("==", SF("ksize"), L(0)))
+               or (not pol and t in (mk_bin("<", L(0), SF("ksize")), mk_bin("!=", SF("ksize"), L(0))))
+               for t, pol, _ in sp.conds):
             continue
         n_other += 1
         ln = sp.state.get(SF("len"), SF("len"))
